@@ -9,6 +9,10 @@
   exn_src_buffer / exn_src_len / exn_src_error : string — normalised token strings of the bodies of the eight C functions the
   machine models one Gallina function each (the `e->active = false;` statements in front of
   `return e->obj;` are taken out of exn_src_catch: they are the parameter above).
+* throw_records_obj_after_format : bool — is `e->obj = obj;` placed after print_to_with in exception_throw
+* try_keeps_obj : bool — exception_try does not touch e->obj
+* exn_kind_defs : list (string * string) — (NAME, ARG) of every `var NAME = CelloEmpty(ARG);` in
+  src/Exception.c (the library's exception kinds)
 A macro/function that is not found emits None (= broken obligation)."""
 import re
 
@@ -31,6 +35,11 @@ def macro(h, name):
     return norm(m.group(1).replace('\\\n', ' '))
 
 
+def kind_defs(c):
+    """[(variable name, CelloEmpty argument)] in source order"""
+    return re.findall(r'^\s*var\s+(\w+)\s*=\s*CelloEmpty\s*\(\s*(\w+)\s*\)\s*;', c, re.M)
+
+
 def generate(repo, emit, src, func_body):
     h = src('include/Cello.h')
     for coq, name in (('exn_macro_try', 'try'), ('exn_macro_catch', 'catch'),
@@ -40,6 +49,13 @@ def generate(repo, emit, src, func_body):
 
     c = src('src/Exception.c')
     c = re.sub(r'//[^\n]*', ' ', c)
+    # every exception kind the library defines: `var NAME = CelloEmpty(ARG);` at file scope.  A kind is
+    # matched by eq, and Type objects compare by NAME (= ARG), so ARG must be the variable's own name
+    # and the names must be pairwise distinct (ExnProofs.kinds_ok_dec decides it)
+    kinds = kind_defs(c)
+    emit('exn_kind_defs', None if not kinds else
+         'Definition exn_kind_defs : list (string * string) :=\n  [' +
+         ';\n   '.join('(%s, %s)' % (coq_string(n), coq_string(a)) for n, a in kinds) + ']%string.')
     bodies = {}
     for coq, hdr in (('exn_src_try', r'void\s+exception_try\s*\(\s*jmp_buf\s*\*\s*env\s*\)\s*\{'),
                      ('exn_src_try_end', r'void\s+exception_try_end\s*\(\s*void\s*\)\s*\{'),
@@ -48,6 +64,7 @@ def generate(repo, emit, src, func_body):
                      ('exn_src_catch', r'var\s+exception_catch\s*\(\s*var\s+args\s*\)\s*\{'),
                      ('exn_src_buffer', r'static\s+jmp_buf\s*\*\s*Exception_Buffer\s*\(\s*struct\s+Exception\s*\*\s*e\s*\)\s*\{'),
                      ('exn_src_len', r'static\s+size_t\s+Exception_Len\s*\(\s*var\s+self\s*\)\s*\{'),
+                     ('exn_src_signal', r'static\s+void\s+Exception_Signal\s*\(\s*int\s+sig\s*\)\s*\{'),
                      ('exn_src_error', r'static\s+void\s+Exception_Error\s*\(\s*struct\s+Exception\s*\*\s*e\s*\)\s*\{')):
         b = func_body(c, hdr)
         bodies[coq] = None if b is None else norm(b)
@@ -65,6 +82,20 @@ def generate(repo, emit, src, func_body):
         else:
             emit('clear_active_on_catch', None)
         bodies['exn_src_catch'] = cb.replace('e -> active = false ; return e -> obj ;', 'return e -> obj ;')
+    tb = bodies.get('exn_src_throw')
+    if tb is None:
+        emit('throw_records_obj_after_format', None)
+    else:
+        io, ip = tb.find('e -> obj = obj ;'), tb.find('print_to_with (')
+        ok = io >= 0 and ip >= 0 and tb.count('e -> obj =') == 1 and tb.count('print_to_with (') == 1
+        emit('throw_records_obj_after_format', None if not ok else
+             'Definition throw_records_obj_after_format : bool := %s.   (* source: e->obj = obj; %s print_to_with(e->msg, ..) *)'
+             % (('true', 'after') if io > ip else ('false', 'before')))
+        bodies['exn_src_throw'] = tb.replace('e -> obj = obj ; ', '', 1)      # its position is the flag above
+    yb = bodies.get('exn_src_try')
+    emit('try_keeps_obj', None if yb is None else
+         'Definition try_keeps_obj : bool := %s.   (* source: exception_try %s e->obj *)'
+         % (('false', 'mentions') if re.search(r'-> obj\b', yb) else ('true', 'does not mention')))
     for coq, t in bodies.items():
         emit(coq, None if t is None else 'Definition %s : string := %s%%string.' % (coq, coq_string(t)))
 
